@@ -99,3 +99,105 @@ Proof.
       destruct (Nat.ltb_spec NR_LIMIT llen) as [Hbig|]; [|now rewrite Bool.orb_false_r].
       rewrite (longrun_big r (S llen)) by (unfold NR_LIMIT, MAXLINE in *; lia). now rewrite !Bool.orb_true_r.
 Qed.
+
+(* ------------------------------------------------------------------ data without an empty line *)
+Lemma hpos_cons a c r :
+  hpos a (c :: r) =
+  if is_eol c then
+    if Nat.eqb a 0 then 0
+    else match r with
+         | c2 :: r2 => if N.eqb c CR && N.eqb c2 LF then 2 + hpos 0 r2 else 1 + hpos 0 r
+         | [] => 1
+         end
+  else S (hpos (S a) r).
+Proof. reflexivity. Qed.
+
+Lemma hpos_firstn_self : forall l a, hpos a (firstn (hpos a l) l) = hpos a l.
+Proof.
+  intros l. remember (length l) as n eqn:En. revert l En.
+  induction n as [n IH] using lt_wf_ind. intros l En a.
+  destruct l as [|c r]; [reflexivity|]. cbn [length] in En. rewrite (hpos_cons a c r).
+  destruct (is_eol c) eqn:He.
+  - destruct (Nat.eqb_spec a 0) as [Hz|Hnz]; [reflexivity|].
+    destruct r as [|c2 r2].
+    + change (firstn 1 [c]) with [c]. rewrite hpos_cons, He. destruct (Nat.eqb_spec a 0); [contradiction|reflexivity].
+    + cbn [length] in En. destruct (N.eqb c CR && N.eqb c2 LF) eqn:E.
+      * change (firstn (2 + hpos 0 r2) (c :: c2 :: r2)) with (c :: c2 :: firstn (hpos 0 r2) r2).
+        rewrite hpos_cons, He, E. destruct (Nat.eqb_spec a 0); [contradiction|].
+        rewrite (IH (length r2)) by (lia || reflexivity). reflexivity.
+      * change (firstn (1 + hpos 0 (c2 :: r2)) (c :: c2 :: r2)) with (c :: firstn (hpos 0 (c2 :: r2)) (c2 :: r2)).
+        rewrite hpos_cons, He. destruct (Nat.eqb_spec a 0); [contradiction|].
+        destruct (hpos 0 (c2 :: r2)) as [|h] eqn:Eh; [reflexivity|].
+        change (firstn (S h) (c2 :: r2)) with (c2 :: firstn h r2). cbv iota. rewrite E.
+        change (c2 :: firstn h r2) with (firstn (S h) (c2 :: r2)). rewrite <- Eh.
+        rewrite (IH (length (c2 :: r2))) by (cbn [length]; lia || reflexivity). reflexivity.
+  - change (firstn (S (hpos (S a) r)) (c :: r)) with (c :: firstn (hpos (S a) r) r).
+    rewrite hpos_cons, He. rewrite (IH (length r)) by (lia || reflexivity). reflexivity.
+Qed.
+
+Definition noempty (l : bytes) : Prop := hpos 0 l = length l.
+
+Lemma noempty_header (w : bytes) : noempty (firstn (hpos 0 w) w).
+Proof.
+  unfold noempty. rewrite hpos_firstn_self. rewrite firstn_length. pose proof (hpos_le w 0). lia.
+Qed.
+
+Lemma hpos_full_prefix : forall l a, hpos a l = length l -> forall k, hpos a (firstn k l) = length (firstn k l).
+Proof.
+  intros l. remember (length l) as n eqn:En. revert l En.
+  induction n as [n IH] using lt_wf_ind. intros l En a H k.
+  destruct l as [|c r]; [now rewrite firstn_nil|]. destruct k as [|k]; [reflexivity|].
+  cbn [length] in En. rewrite hpos_cons in H. cbn [length] in H.
+  change (firstn (S k) (c :: r)) with (c :: firstn k r). rewrite hpos_cons. cbn [length].
+  destruct (is_eol c) eqn:He.
+  - destruct (Nat.eqb_spec a 0) as [Hz|Hnz]; [lia|].
+    destruct r as [|c2 r2]; [rewrite firstn_nil; reflexivity|]. cbn [length] in En, H.
+    destruct k as [|k]; [reflexivity|]. change (firstn (S k) (c2 :: r2)) with (c2 :: firstn k r2). cbn [length].
+    destruct (N.eqb c CR && N.eqb c2 LF) eqn:E.
+    + rewrite (IH (length r2) ltac:(lia) r2 eq_refl 0 ltac:(lia) k). reflexivity.
+    + change (c2 :: firstn k r2) with (firstn (S k) (c2 :: r2)).
+      rewrite (IH (length (c2 :: r2)) ltac:(cbn [length]; lia) (c2 :: r2) eq_refl 0 ltac:(cbn [length]; lia) (S k)).
+      cbn [firstn length]. reflexivity.
+  - rewrite (IH (length r) ltac:(lia) r eq_refl (S a) ltac:(lia) k). reflexivity.
+Qed.
+
+Lemma noempty_prefix l k : noempty l -> noempty (firstn k l).
+Proof. unfold noempty. intros H. apply hpos_full_prefix. exact H. Qed.
+
+(** behind a complete line end of data without an empty line there is again no empty line *)
+Lemma hpos_full_suffix : forall l a, hpos a l = length l -> forall e, 1 <= e <= length l ->
+  is_eol (nth (e - 1) l 0%N) = true -> (nth (e - 1) l 0%N = CR -> e < length l -> nth e l 0%N <> LF) ->
+  hpos 0 (skipn e l) = length l - e.
+Proof.
+  intros l. assert (Hn : length l <= length l) by lia. revert Hn. generalize (length l) at 2. intros n. revert l.
+  induction n as [|n IH]; intros l Hn a H e He Heol Hns.
+  { destruct l; cbn [length] in *; lia. }
+  destruct l as [|c r]; [cbn [length] in He; lia|]. cbn [length] in Hn, He. rewrite hpos_cons in H. cbn [length] in H.
+  destruct (is_eol c) eqn:Hc.
+  - destruct (Nat.eqb_spec a 0) as [Hz|Hnz]; [lia|].
+    destruct r as [|c2 r2].
+    + assert (e = 1) by (cbn [length] in He; lia). subst e. reflexivity.
+    + cbn [length] in Hn, He, H. destruct (N.eqb c CR && N.eqb c2 LF) eqn:E.
+      * apply andb_prop in E as [E1 E2]. apply N.eqb_eq in E1, E2.
+        destruct e as [|[|e]]; [lia| |].
+        -- exfalso. cbn in Hns. apply Hns; [exact E1|cbn [length]; lia|exact E2].
+        -- destruct e as [|e]; [cbn [skipn length]; lia|].
+           change (skipn (S (S (S e))) (c :: c2 :: r2)) with (skipn (S e) r2).
+           replace (length (c :: c2 :: r2) - S (S (S e))) with (length r2 - S e) by (cbn [length]; lia).
+           apply (IH r2 ltac:(lia) 0 ltac:(lia) (S e)); [lia| |].
+           ++ replace (S e - 1) with e by lia. cbn in Heol. exact Heol.
+           ++ replace (S e - 1) with e by lia. cbn in Hns. intros A B. apply Hns; [exact A|cbn [length]; lia].
+      * destruct e as [|[|e]]; [lia|cbn [skipn length]; lia|].
+        change (skipn (S (S e)) (c :: c2 :: r2)) with (skipn (S e) (c2 :: r2)).
+        replace (length (c :: c2 :: r2) - S (S e)) with (length (c2 :: r2) - S e) by (cbn [length]; lia).
+        apply (IH (c2 :: r2) ltac:(cbn [length]; lia) 0 ltac:(cbn [length]; lia) (S e)); [cbn [length]; lia| |].
+        -- replace (S e - 1) with e by lia. cbn in Heol. exact Heol.
+        -- replace (S e - 1) with e by lia. cbn in Hns. intros A B. apply Hns; [exact A|cbn [length] in *; lia].
+  - destruct e as [|[|e]]; [lia| |].
+    + cbn in Heol. rewrite Hc in Heol. discriminate.
+    + change (skipn (S (S e)) (c :: r)) with (skipn (S e) r).
+      replace (length (c :: r) - S (S e)) with (length r - S e) by (cbn [length]; lia).
+      apply (IH r ltac:(lia) (S a) ltac:(lia) (S e)); [lia| |].
+      * replace (S e - 1) with e by lia. cbn in Heol. exact Heol.
+      * replace (S e - 1) with e by lia. cbn in Hns. intros A B. apply Hns; [exact A|cbn [length]; lia].
+Qed.
